@@ -803,3 +803,8 @@ impl Session {
         }
     }
 }
+
+// Verification hooks (harnesses live in /verif/hooks); inert unless built with --cfg rdest_verif or by cargo-kani
+#[cfg(any(kani, rdest_verif))]
+#[path = "/verif/hooks/session.rs"]
+mod verif_hooks;
